@@ -7,3 +7,4 @@ import LyModel.Props.C07
 #print axioms LyModel.Props.C07.wd_modes_inner
 #print axioms LyModel.Props.C07.implicit_exact
 #print axioms LyModel.Props.C07.autodel_exact
+#print axioms LyModel.Props.C07.np_cont_dflt
